@@ -436,7 +436,7 @@ class ExprGen:
         ch = [("atom", 6)]
         if d < 3:
             ch += [("union", 4), ("alias", 2), ("paren", 1), ("nonnull", 1), ("exclude", 1), ("extract", 1), ("index-array", 1), ("index-tuple", 1),
-                   ("index-prop", 1), ("index-member", 2), ("intersection", 1), ("iface", 2), ("objlit", 2)]
+                   ("index-prop", 1), ("index-member", 2), ("intersection", 1), ("iface", 2), ("objlit", 2), ("index-unresolvable", 1)]
         k = r.wpick(ch)
         self.tg.used["ty:" + k] += 1
         if k == "atom":
@@ -475,6 +475,10 @@ class ExprGen:
                 # a rest element: `[A, ...B[]][1]` is B, `[A, ...B[]][number]` is A | B
                 return "[%s, ...(%s)[]]%s" % (self.expr(d + 1), self.expr(d + 1), r.pick(["[0]", "[1]", "[number]"]))
             return "[%s, %s]%s" % (self.expr(d + 1), self.expr(d + 1), r.pick(["[0]", "[1]", "[number]"]))
+        if k == "index-unresolvable":
+            # an indexed access the resolver cannot follow (an imported object type, a `keyof` index): whatever is emitted must not be a check
+            # that NO value passes (`type: []`)
+            return r.pick(["Ext['k']", "{ p: string, q: number }[keyof { p: string, q: number }]", "Ext[number]", "Ext['a' | 'b']"])
         if k == "index-prop":
             return "{ p: %s, q: number }%s" % (self.expr(d + 1), r.pick(["['p']", "['p' | 'q']", "[string]"]))
         if k == "index-member":
@@ -564,7 +568,7 @@ def c17_body(r, i):
         tg.used["multi-call"] += 1
         ms = ["q%d%s: %s" % (k, "?" if r.chance(0.3) else "", r.pick(members).split(": ", 1)[1] if r.chance(0.5) else eg.expr()) for k in range(1 + r.below(3))]
         call += "\nconst C%d_%d = defineComponent((props: { %s }) => {});" % (i, j, "; ".join(ms))
-    return tg, call, {"imports": "import { defineComponent } from 'vue';\nclass Foo {}\n"}
+    return tg, call, {"imports": "import { defineComponent } from 'vue';\nimport type { Ext } from './ext';\nclass Foo {}\n"}
 
 
 def c17_case(r, i):
